@@ -111,7 +111,7 @@ DELAYED = '''<scxml xmlns="http://www.w3.org/2005/07/scxml" version="1.0" datamo
 def delayed_work(job):
     binary, cid, dm, eng, d1, d2, k = job
     xml = DELAYED % {'dm': dm, 'd1': d1, 'd2': d2}
-    raw = T.run_jobs(binary, [(cid, T.job_text(cid, eng, xml, ['go'], flags=['drain', 'novars'], snap=k))], timeout_per_job=60)
+    raw = T.run_jobs(binary, [(cid, T.job_text(cid, eng, xml, ['go'], flags=['drain', 'novars', 'lateresume'], snap=k))], timeout_per_job=60)
     r = raw[cid]
     lines = [l for l in r['lines'] if l and not l.startswith('[')]
     a_after, b, info = split_at_snapshot(lines)
